@@ -158,6 +158,26 @@ func p7Eval(c *Ctx, cs Case, prop string) {
 	}
 }
 
+// derOneElement: the octets are exactly one element by their outermost identifier and (definite) length octets
+func derOneElement(b []byte) bool {
+	if len(b) < 2 || b[0]&0x1f == 0x1f {
+		return false
+	}
+	l, hl := int(b[1]), 2
+	if l&0x80 != 0 {
+		n := l & 0x7f
+		if n == 0 || n > 4 || len(b) < 2+n {
+			return false
+		}
+		l = 0
+		for i := 0; i < n; i++ {
+			l = l<<8 | int(b[2+i])
+		}
+		hl = 2 + n
+	}
+	return hl+l == len(b)
+}
+
 func c04Matcher(blob []byte, cert *x509.Certificate) string { return "" }
 
 func c04Eval(c *Ctx, cs Case) { p7Eval(c, cs, "C04") }
@@ -492,6 +512,102 @@ func forgeries(c *Ctx, s p7Seed, emit func(class string, b []byte)) {
 			eci.kids = []*derNode{eci.kids[0], {tag: 0xa0, compound: true, kids: []*derNode{{tag: el.tag, compound: el.tag&0x20 != 0}}}}
 			return true
 		})
+	}
+	// the octets inside the [0] of the encapsulated content are NOT one well-formed element, attributes and signature
+	// kept: the blob still "encapsulates its content" (the [0] field is there and not empty), but there are no contents
+	// octets whose SHA-256 the signed message digest could equal - so success is excluded; an error or a negative
+	// result is what the statement allows. Reached from a valid blob by a change of ONE length octet of the content
+	// element (+1; each single bit that makes the declared length larger, so that it reaches past the end of its [0]
+	// wrapper; for a short-form octet also bit 7, which turns it into a long-form introducer), by cutting the element's
+	// last octet off, and by replacing the content (or, for a detached blob, attaching as content) octets that are no
+	// DER at all: text, a lone identifier octet, an identifier and a long-form introducer without its length octets,
+	// a declared length of 2^32-1 over a few octets.
+	{
+		withContent := func(class string, mk func(el []byte) ([]byte, bool)) {
+			edit("forge-content-not-an-element/"+class, func(r *derNode) bool {
+				sd := sdOf(r)
+				if len(sd.kids) < 4 || !sd.kids[2].compound || len(sd.kids[2].kids) < 1 || sd.kids[2].kids[0].tag != 0x06 {
+					return false
+				}
+				eci := sd.kids[2]
+				var el []byte
+				if len(eci.kids) >= 2 {
+					w := eci.kids[1]
+					if w.compound {
+						for _, k := range w.kids {
+							el = append(el, k.encode()...)
+						}
+					} else {
+						el = append(el, w.leaf...)
+					}
+				}
+				raw, ok := mk(el)
+				if !ok || len(raw) == 0 || derOneElement(raw) {
+					return false
+				}
+				eci.kids = []*derNode{eci.kids[0], {tag: 0xa0, leaf: raw}}
+				return true
+			})
+		}
+		// where the length octets of the content element are
+		lenOctets := func(el []byte) []int {
+			if len(el) < 2 {
+				return nil
+			}
+			if el[1]&0x80 == 0 {
+				return []int{1}
+			}
+			var out []int
+			for i := 0; i < int(el[1]&0x7f) && 2+i < len(el); i++ {
+				out = append(out, 2+i)
+			}
+			return out
+		}
+		for k := 0; k < 5; k++ {
+			k := k
+			withContent(fmt.Sprintf("length-octet-%d-plus-1", k), func(el []byte) ([]byte, bool) {
+				lo := lenOctets(el)
+				if k >= len(lo) || el[lo[k]] == 0xff || (el[1]&0x80 == 0 && el[1] == 0x7f) {
+					return nil, false
+				}
+				m := append([]byte{}, el...)
+				m[lo[k]]++
+				return m, true
+			})
+			for bit := 0; bit < 8; bit++ {
+				bit := bit
+				if !c.Thorough && bit != 0 && bit != 1 && bit != 7 && !(bit == 6 && k == 0) {
+					continue // quick tier: the lowest two bits, the highest, and bit 6 of the first length octet
+				}
+				withContent(fmt.Sprintf("length-octet-%d-bit-%d-set", k, bit), func(el []byte) ([]byte, bool) {
+					lo := lenOctets(el)
+					if k >= len(lo) || el[lo[k]]&(1<<bit) != 0 {
+						return nil, false
+					}
+					m := append([]byte{}, el...)
+					m[lo[k]] |= 1 << bit
+					return m, true
+				})
+			}
+		}
+		withContent("last-octet-cut-off", func(el []byte) ([]byte, bool) {
+			if len(el) < 3 {
+				return nil, false
+			}
+			return append([]byte{}, el[:len(el)-1]...), true
+		})
+		for _, nd := range []struct {
+			name string
+			b    []byte
+		}{
+			{"text", []byte("not DER at all")}, {"text-long", []byte("This is the new content of the variable, in plain text, and it is not an ASN.1 element.\n")},
+			{"identifier-only", []byte{0x30}}, {"long-form-without-length-octets", []byte{0x30, 0x82}}, {"long-form-length-cut", []byte{0x04, 0x82, 0x01}},
+			{"length-2^32-1", []byte{0x04, 0x84, 0xff, 0xff, 0xff, 0xff, 1, 2, 3, 4}}, {"high-octets", []byte{0xff, 0xff, 0xff, 0xff, 0xff, 0xff}},
+			{"indefinite-length", []byte{0x30, 0x80, 0x04, 0x01, 0x41, 0x00, 0x00}},
+		} {
+			nd := nd
+			withContent("replaced-by/"+nd.name, func([]byte) ([]byte, bool) { return nd.b, true })
+		}
 	}
 	// the signer entry re-made by the SIGNER'S OWN key under another digest algorithm: digestAlgorithm names SHA-1 /
 	// SHA-384 / SHA-512, the message digest is that hash of the content, the signature an RSA PKCS#1 v1.5 signature
@@ -1624,7 +1740,7 @@ func c04Gen(c *Ctx) {
 
 func init() {
 	register("C04", &PropDef{
-		Rule:   "seeds: library-signed data (detached) and SpcIndirectDataContent blobs under six certificate shapes (one CA-issued with issuer different from subject, one whose own signature is sha384WithRSA, one with a hand-encoded UTF8String/emailAddress name), the sbsign/sbvarsign fixtures of the repository, OpenSSL smime/cms blobs when the CLI is present (including -noattr: signer entries without signed attributes, the signature made directly over the content octets, RFC 2315 section 9.3), OpenSSL-shaped CMS blobs built in the harness (with and without signed attributes, attached and detached); each verified under the signer's certificate, a twin certificate (same issuer and serial, another RSA key), Ed25519 and ECDSA twins (same issuer and serial, no RSA key at all) and an unrelated one. Derived blobs: single-bit/byte changes (quick: 40 stratified positions; thorough: every position of blobs <= 2 KiB), a bit flip inside every DER leaf (signature, digest, integers, OIDs), delete/duplicate/swap of the children of every constructed node, truncations, and targeted forgeries (content, content type, certificates, signer identity, message digest, dropped signed attributes, the signed attributes dropped AND the octets that were signed (their DER SET) moved to where the content is - as the contents octets of an OCTET STRING / of a SEQUENCE / as the SET itself, under the original content type and under data -, so that the genuine signature is one over the content of a blob that has no signed attributes and no message digest at all, every object identifier outside the certificates replaced by each of seven sibling OIDs alone and together with a content change, six two-signer-entry combinations of {names the certificate, names another} x {valid, damaged signature}, six two-signer-entry combinations over replaced content of {names the certificate, names another} x {original attributes, attributes of the same length re-bound to the replaced content (messageDigest := its SHA-256)} under the original signature in both orders - including forged entry first, original attributes second -, the single re-bound entry, the blob consistently re-signed by another key over replaced content,, replaced content with the unauthenticatedAttributes [1] field of the signer entry holding attributes of the types that bind content in the SIGNED set (a lone messageDigest of the replaced content; contentType + signingTime + that messageDigest; a copy of the whole signed set re-bound to the replaced content) under the original signed attributes and signature - and, with the content kept, an unsigned messageDigest of other content, which must change nothing -, the signer entry's serial number re-encoded in every way that keeps 'the same octets' but is another number or no DER (the 00 pad octet of a serial whose leading octet has its top bit set dropped = a negative number, the top bit of the leading octet set, one / two 00 pad octets added, an ff octet added, the number negated, an empty INTEGER) - for every seed and for ten further signer certificates chosen by serial class (top bit of the leading octet set in 1, 2, 3, 8 and 20 octets, all ones, 7f / 7fff without pad, an inner zero octet; library-signed and OpenSSL-shaped blobs alternating) -, and that re-signed blob carrying the genuine one (and the reverse) in every place that can hold a blob: unsigned attributes of a signer entry under the SpcNestedSignature / MS RFC 3161 timestamp / timeStampToken / an unknown attribute type with one and two values, a counter-signature attribute holding the other blob's signer entry, an extra certificate, the CRL field, the content or a further content element, the other blob's signer entries appended / prepended, trailing fields of SignedData and of the content info, a second SignedData). On seeds and targeted forgeries the question is also asked of ONE parsed object that answers for several certificates in turn, in both orders: the twin / unrelated / non-RSA certificate after the signer's certificate (Verify(signer), Verify(this), Verify(signer), Verify(this)) and the signer's certificate after a twin with the same issuer and serial (Verify(twin), Verify(signer), Verify(twin), Verify(signer)); the answer must be the one a fresh object gives. On the same classes (and an eighth of the random mutations) the blob is also verified as the certificate data of an authenticated-variable descriptor (EFIVariableAuthentication2.Verify) and a success there is judged by the Spec as well. Further targeted forgeries on every seed: the encapsulated content replaced by - or, for a detached blob, attached as - an element whose VALUE is empty (30 00, 04 00, 05 00, 31 00) with attributes and signature kept (content is then present and its zero contents octets have to match the signed digest: presence is decided by the element, not by its length); and, where the harness holds the signer's key, the signer entry re-made by that key under another digest algorithm (digestAlgorithm, message digest of the content and RSA PKCS#1 v1.5 signature all under SHA-1 / SHA-384 / SHA-512 - what openssl cms -md ... emits -, and label and hash disagreeing: named SHA-256 / made with SHA-512, named SHA-512 / made with SHA-256): consistent, by the right key, but no RSA-SHA256 signature and no SHA-256 message digest. Signature VALUES and public exponents: library-signed (detached data, attached SpcIndirectDataContent) and OpenSSL-shaped blobs under signer certificates with exponent 65537 and with exponent 3 (self-signed and CA-issued; the genuine blob under signer, twins and a stranger), then a blob naming the exponent-3 certificate whose signature value is the integer cube root of 00 01 FF*n 00 DigestInfo(SHA-256 of the attributes) || free octets (n = 8, 1, 0; DigestInfo with and without NULL parameters), computed from the public key alone, and for both exponents values made with the private key over blocks that deviate from EMSA-PKCS1-v1_5 in one respect (octets behind the DigestInfo, NULL absent, four padding octets behind leading zeros, block type 02, a padding octet not FF, BER lengths in the DigestInfo, digest of other attributes). The producer configurations of C16 (encapsulated content types of 3..38 DER octets, additional signed attributes of every size class, two and three signers with SHA-1 / SHA-256 / SHA-384 / SHA-512 each, attached and detached, the SHA-256 signer first or last) as seeds under every certificate incl. the co-signer's own (whose SHA-1/384/512 entry must not verify), with the targeted forgeries on a third of them. Every case is non-trivial; distinct = distinct (blob, certificate).",
+		Rule:   "seeds: library-signed data (detached) and SpcIndirectDataContent blobs under six certificate shapes (one CA-issued with issuer different from subject, one whose own signature is sha384WithRSA, one with a hand-encoded UTF8String/emailAddress name), the sbsign/sbvarsign fixtures of the repository, OpenSSL smime/cms blobs when the CLI is present (including -noattr: signer entries without signed attributes, the signature made directly over the content octets, RFC 2315 section 9.3), OpenSSL-shaped CMS blobs built in the harness (with and without signed attributes, attached and detached); each verified under the signer's certificate, a twin certificate (same issuer and serial, another RSA key), Ed25519 and ECDSA twins (same issuer and serial, no RSA key at all) and an unrelated one. Derived blobs: single-bit/byte changes (quick: 40 stratified positions; thorough: every position of blobs <= 2 KiB), a bit flip inside every DER leaf (signature, digest, integers, OIDs), delete/duplicate/swap of the children of every constructed node, truncations, and targeted forgeries (content, content type, certificates, signer identity, message digest, dropped signed attributes, the signed attributes dropped AND the octets that were signed (their DER SET) moved to where the content is - as the contents octets of an OCTET STRING / of a SEQUENCE / as the SET itself, under the original content type and under data -, so that the genuine signature is one over the content of a blob that has no signed attributes and no message digest at all, every object identifier outside the certificates replaced by each of seven sibling OIDs alone and together with a content change, six two-signer-entry combinations of {names the certificate, names another} x {valid, damaged signature}, six two-signer-entry combinations over replaced content of {names the certificate, names another} x {original attributes, attributes of the same length re-bound to the replaced content (messageDigest := its SHA-256)} under the original signature in both orders - including forged entry first, original attributes second -, the single re-bound entry, the blob consistently re-signed by another key over replaced content,, replaced content with the unauthenticatedAttributes [1] field of the signer entry holding attributes of the types that bind content in the SIGNED set (a lone messageDigest of the replaced content; contentType + signingTime + that messageDigest; a copy of the whole signed set re-bound to the replaced content) under the original signed attributes and signature - and, with the content kept, an unsigned messageDigest of other content, which must change nothing -, the signer entry's serial number re-encoded in every way that keeps 'the same octets' but is another number or no DER (the 00 pad octet of a serial whose leading octet has its top bit set dropped = a negative number, the top bit of the leading octet set, one / two 00 pad octets added, an ff octet added, the number negated, an empty INTEGER) - for every seed and for ten further signer certificates chosen by serial class (top bit of the leading octet set in 1, 2, 3, 8 and 20 octets, all ones, 7f / 7fff without pad, an inner zero octet; library-signed and OpenSSL-shaped blobs alternating) -, and that re-signed blob carrying the genuine one (and the reverse) in every place that can hold a blob: unsigned attributes of a signer entry under the SpcNestedSignature / MS RFC 3161 timestamp / timeStampToken / an unknown attribute type with one and two values, a counter-signature attribute holding the other blob's signer entry, an extra certificate, the CRL field, the content or a further content element, the other blob's signer entries appended / prepended, trailing fields of SignedData and of the content info, a second SignedData). On seeds and targeted forgeries the question is also asked of ONE parsed object that answers for several certificates in turn, in both orders: the twin / unrelated / non-RSA certificate after the signer's certificate (Verify(signer), Verify(this), Verify(signer), Verify(this)) and the signer's certificate after a twin with the same issuer and serial (Verify(twin), Verify(signer), Verify(twin), Verify(signer)); the answer must be the one a fresh object gives. On the same classes (and an eighth of the random mutations) the blob is also verified as the certificate data of an authenticated-variable descriptor (EFIVariableAuthentication2.Verify) and a success there is judged by the Spec as well. Further targeted forgeries on every seed: the encapsulated content replaced by - or, for a detached blob, attached as - an element whose VALUE is empty (30 00, 04 00, 05 00, 31 00) with attributes and signature kept (content is then present and its zero contents octets have to match the signed digest: presence is decided by the element, not by its length); the octets inside the [0] of the encapsulated content made something that is NOT one well-formed element, attributes and signature kept - one length octet of the content element +1, each single bit of each length octet set (quick: bits 0, 1 and 7, and bit 6 of the first; the declared length then reaches past the end of the [0] wrapper; bit 7 of a short-form octet turns it into a long-form introducer), the element's last octet cut off, and the content replaced by (for a detached blob: attached as) octets that are no DER: text, a lone identifier octet, a long-form introducer without / with too few length octets, a declared length of 2^32-1, ff octets, an indefinite-length element - stand-alone and as the certificate data of an authenticated-variable descriptor: there are no contents octets the signed digest could equal, so an error or a negative result, never success; and, where the harness holds the signer's key, the signer entry re-made by that key under another digest algorithm (digestAlgorithm, message digest of the content and RSA PKCS#1 v1.5 signature all under SHA-1 / SHA-384 / SHA-512 - what openssl cms -md ... emits -, and label and hash disagreeing: named SHA-256 / made with SHA-512, named SHA-512 / made with SHA-256): consistent, by the right key, but no RSA-SHA256 signature and no SHA-256 message digest. Signature VALUES and public exponents: library-signed (detached data, attached SpcIndirectDataContent) and OpenSSL-shaped blobs under signer certificates with exponent 65537 and with exponent 3 (self-signed and CA-issued; the genuine blob under signer, twins and a stranger), then a blob naming the exponent-3 certificate whose signature value is the integer cube root of 00 01 FF*n 00 DigestInfo(SHA-256 of the attributes) || free octets (n = 8, 1, 0; DigestInfo with and without NULL parameters), computed from the public key alone, and for both exponents values made with the private key over blocks that deviate from EMSA-PKCS1-v1_5 in one respect (octets behind the DigestInfo, NULL absent, four padding octets behind leading zeros, block type 02, a padding octet not FF, BER lengths in the DigestInfo, digest of other attributes). The producer configurations of C16 (encapsulated content types of 3..38 DER octets, additional signed attributes of every size class, two and three signers with SHA-1 / SHA-256 / SHA-384 / SHA-512 each, attached and detached, the SHA-256 signer first or last) as seeds under every certificate incl. the co-signer's own (whose SHA-1/384/512 entry must not verify), with the targeted forgeries on a third of them. Every case is non-trivial; distinct = distinct (blob, certificate).",
 		Assume: []string{"x509.ParseCertificates and Certificate.CheckSignature are opaque Go library code; RSA/SHA-256 on the model side are the executable Lean implementations, compared with Go's verdict on every case"},
 		Eval:   c04Eval, Gen: c04Gen,
 	})
